@@ -3,6 +3,7 @@ C19 — helper lemmas for the write side (one writer per stream).
 -/
 import Kap.Model.C19Wire
 import Kap.Proofs.C19Frame
+import Kap.Proofs.C19Trunc
 namespace Kap.C19
 
 theorem wireSingle_bytes (q : List (List Nat)) : wireBytes (wireSingle q) = (q.map frame).flatten := by
@@ -42,5 +43,23 @@ theorem Interleave.length {α : Type} {xs ys zs : List α} (h : Interleave xs ys
   | nil => rfl
   | left _ ih => simp [ih]; omega
   | right _ ih => simp [ih]; omega
+
+end Kap.C19
+
+namespace Kap.C19
+
+/-- A stream cut before its end holds fewer whole frames than were written (every frame has at least one byte). -/
+theorem wholeFrames_lt_of_cut_lt : ∀ (lens : List Nat) (cut : Nat), (∀ l ∈ lens, 0 < l) → cut < lens.sum →
+    (wholeFrames lens cut).1 < lens.length
+  | [], cut, _, h => by simp at h
+  | l :: ls, cut, hpos, h => by
+    by_cases h0 : cut = 0
+    · subst h0; rw [wholeFrames_zero]; simp
+    · by_cases hl : l ≤ cut
+      · rw [wholeFrames_cons_ge l ls cut h0 hl]
+        have ih := wholeFrames_lt_of_cut_lt ls (cut - l) (fun x hx => hpos x (by simp [hx]))
+          (by simp only [List.sum_cons] at h; omega)
+        simp only [List.length_cons]; omega
+      · rw [wholeFrames_cons_lt l ls cut h0 hl]; simp
 
 end Kap.C19
